@@ -5,15 +5,20 @@ Import ListNotations.
 
 (* ---- association list of pending groups ---- *)
 
-Lemma lookup_remove_key : forall k k' l,
-  lookup k (remove_key k' l) = if Nat.eqb k k' then None else lookup k l.
+Lemma key_eqb_spec : forall f sh f' sh', reflect (f = f' /\ sh = sh') (key_eqb f sh f' sh').
 Proof.
-  induction l as [|[a v] l IH]; simpl.
-  - destruct (Nat.eqb k k'); reflexivity.
-  - destruct (Nat.eqb_spec k' a) as [->|N].
-    + rewrite IH. destruct (Nat.eqb_spec k a); reflexivity.
-    + simpl. rewrite IH. destruct (Nat.eqb_spec k a) as [->|N2].
-      * destruct (Nat.eqb_spec a k'); [congruence|reflexivity].
+  intros. unfold key_eqb. destruct (Nat.eqb_spec f f'), (Nat.eqb_spec sh sh'); simpl; constructor; tauto.
+Qed.
+
+Lemma lookup_remove_key : forall f sh f' sh' l,
+  lookup f sh (remove_key f' sh' l) = if key_eqb f sh f' sh' then None else lookup f sh l.
+Proof.
+  induction l as [|[[a b] v] l IH]; simpl.
+  - destruct (key_eqb f sh f' sh'); reflexivity.
+  - destruct (key_eqb_spec f' sh' a b) as [[-> ->]|N].
+    + rewrite IH. destruct (key_eqb_spec f sh a b); reflexivity.
+    + simpl. rewrite IH. destruct (key_eqb_spec f sh a b) as [[-> ->]|N2].
+      * destruct (key_eqb_spec a b f' sh') as [[-> ->]|N3]; [tauto|reflexivity].
       * reflexivity.
 Qed.
 
@@ -27,12 +32,6 @@ Proof.
       rewrite length_upd in L. lia.
   - right. rewrite nth_error_upd_other in H by assumption. auto.
 Qed.
-
-Lemma nth_error_app_old : forall A (l : list A) x i a, nth_error l i = Some a -> nth_error (l ++ [x]) i = Some a.
-Proof. intros. rewrite nth_error_app1; auto. apply nth_error_Some. congruence. Qed.
-
-Lemma nth_error_app_new : forall A (l : list A) x, nth_error (l ++ [x]) (length l) = Some x.
-Proof. intros. rewrite nth_error_app2 by lia. rewrite Nat.sub_diag. reflexivity. Qed.
 
 (* ---- the invariant ---- *)
 
@@ -50,23 +49,23 @@ Record Inv (s : state) : Prop := mkInv {
   (* a caller's recorded (group, index) holds the caller, and the group has the caller's shard *)
   iA : forall ci cl, nth_error (callers s) ci = Some cl ->
        exists g, nth_error (groups s) (c_gid cl) = Some g /\ nth_error (g_args g) (c_index cl) = Some ci /\
-                 g_shard g = c_shard cl;
+                 g_shard g = c_shard cl /\ g_fid g = c_fid cl;
   (* every entry of a group's args is the caller recorded there, and nowhere else *)
   iB : forall gi g i ci, nth_error (groups s) gi = Some g -> nth_error (g_args g) i = Some ci ->
        exists cl, nth_error (callers s) ci = Some cl /\ c_gid cl = gi /\ c_index cl = i;
   (* a published group is still waiting or about to unpublish, and has room *)
-  iC : forall sh gi, lookup sh (pending s) = Some gi ->
-       exists g, nth_error (groups s) gi = Some g /\ g_shard g = sh /\
-                 (g_phase g = Open \/ g_phase g = Woken) /\ (0 < maxsize s -> length (g_args g) < maxsize s);
-  iD : forall gi g, nth_error (groups s) gi = Some g -> gwf (maxsize s) g;
+  iC : forall f sh gi, lookup f sh (pending s) = Some gi ->
+       exists g, nth_error (groups s) gi = Some g /\ (g_fid g = f /\ g_shard g = sh) /\
+                 (g_phase g = Open \/ g_phase g = Woken) /\ (0 < msz s f -> length (g_args g) < msz s f);
+  iD : forall gi g, nth_error (groups s) gi = Some g -> gwf (msz s (g_fid g)) g;
   (* a caller that returned got the value / error of its group, after the group was done *)
   iE : forall ci cl r, nth_error (callers s) ci = Some cl -> c_ret cl = Some r ->
        exists g, nth_error (groups s) (c_gid cl) = Some g /\ g_done g = true /\ r = ret_of g (c_index cl)
 }.
 
-Lemma inv_init : forall ms, Inv (init ms).
+Lemma inv_init : forall mss, Inv (init mss).
 Proof.
-  intros ms. constructor; simpl; intros.
+  intros mss. constructor; simpl; intros.
   - destruct ci; discriminate.
   - destruct gi; discriminate.
   - discriminate.
@@ -77,28 +76,29 @@ Qed.
 (* replacing group gi by a group with the same shard and args *)
 Lemma inv_set_group : forall s gi g g' p',
   Inv s -> nth_error (groups s) gi = Some g ->
-  g_shard g' = g_shard g -> g_args g' = g_args g -> gwf (maxsize s) g' ->
-  (forall sh, lookup sh p' = Some gi -> g_phase g' = Open \/ g_phase g' = Woken) ->
-  (forall sh gj, lookup sh p' = Some gj -> lookup sh (pending s) = Some gj) ->
+  g_fid g' = g_fid g -> g_shard g' = g_shard g -> g_args g' = g_args g -> gwf (msz s (g_fid g)) g' ->
+  (forall f sh, lookup f sh p' = Some gi -> g_phase g' = Open \/ g_phase g' = Woken) ->
+  (forall f sh gj, lookup f sh p' = Some gj -> lookup f sh (pending s) = Some gj) ->
   (g_done g = true -> g_done g' = true /\ forall i, ret_of g' i = ret_of g i) ->
-  Inv (mkState (maxsize s) p' (upd (groups s) gi g') (callers s)).
+  Inv (mkState (maxsizes s) p' (upd (groups s) gi g') (callers s)).
 Proof.
-  intros s gi g g' p' [A B C D E] Hg Hsh Hargs Hwf Hpend Hsub Hret.
-  constructor; cbn [maxsize pending groups callers].
-  - intros ci cl Hc. destruct (A ci cl Hc) as [g0 [G0 [N0 S0]]].
+  intros s gi g g' p' [A B C D E] Hg Hfid Hsh Hargs Hwf Hpend Hsub Hret.
+  constructor; unfold msz in *; cbn [maxsizes pending groups callers].
+  - intros ci cl Hc. destruct (A ci cl Hc) as [g0 [G0 [N0 [S0 F0]]]].
     destruct (Nat.eq_dec (c_gid cl) gi) as [Q|Q].
     + rewrite Q in *. assert (g0 = g) by congruence. subst g0.
-      exists g'. split; [eapply nth_error_upd_same; eauto|]. rewrite Hargs, Hsh. auto.
+      exists g'. split; [eapply nth_error_upd_same; eauto|]. rewrite Hargs, Hsh, Hfid. auto.
     + exists g0. rewrite nth_error_upd_other by auto. auto.
   - intros gj gx i ci Hgj Hn. apply nth_error_upd_inv in Hgj. destruct Hgj as [[-> [-> _]]|[N Hgj]].
     + rewrite Hargs in Hn. eapply B; eauto.
     + eapply B; eauto.
-  - intros sh gj Hl. pose proof (Hsub _ _ Hl) as Hl0. destruct (C sh gj Hl0) as [g0 [G0 [S0 [P0 L0]]]].
+  - intros f sh gj Hl. pose proof (Hsub _ _ _ Hl) as Hl0. destruct (C f sh gj Hl0) as [g0 [G0 [S0 [P0 L0]]]].
     destruct (Nat.eq_dec gj gi) as [->|Q].
     + assert (g0 = g) by congruence. subst g0. exists g'.
-      split; [eapply nth_error_upd_same; eauto|]. rewrite Hsh, Hargs. split; auto. split; auto. eapply Hpend; eauto.
+      split; [eapply nth_error_upd_same; eauto|]. rewrite Hsh, Hargs, Hfid. split; auto. split; auto. eapply Hpend; eauto.
     + exists g0. rewrite nth_error_upd_other by auto. auto.
   - intros gj gx Hgj. apply nth_error_upd_inv in Hgj. destruct Hgj as [[-> [-> _]]|[N Hgj]]; eauto.
+    rewrite Hfid. exact Hwf.
   - intros ci cl r Hc Hr. destruct (E ci cl r Hc Hr) as [g0 [G0 [D0 R0]]].
     destruct (Nat.eq_dec (c_gid cl) gi) as [Q|Q].
     + rewrite Q in *. assert (g0 = g) by congruence. subst g0. destruct (Hret D0) as [D1 R1].
@@ -109,24 +109,25 @@ Qed.
 Lemma full_false_lt : forall ms n, full ms (S n) = false -> (0 < ms -> n < ms) -> (0 < ms -> S n < ms).
 Proof. unfold full. intros ms n F H P. specialize (H P). lia. Qed.
 
-Lemma join_existing : forall s argv sh gi g,
-  Inv s -> lookup sh (pending s) = Some gi -> nth_error (groups s) gi = Some g ->
-  Inv (mkState (maxsize s)
-        (if full (maxsize s) (S (length (g_args g))) then remove_key sh (pending s) else pending s)
+Lemma join_existing : forall s fid argv sh gi g,
+  Inv s -> lookup fid sh (pending s) = Some gi -> nth_error (groups s) gi = Some g ->
+  Inv (mkState (maxsizes s)
+        (if full (msz s fid) (S (length (g_args g))) then remove_key fid sh (pending s) else pending s)
         (upd (groups s) gi
-           (mkGroup (g_shard g) (g_args g ++ [length (callers s)])
-                    (g_closed g || full (maxsize s) (S (length (g_args g)))) (g_phase g) (g_ctxc g)
+           (mkGroup (g_fid g) (g_shard g) (g_args g ++ [length (callers s)])
+                    (g_closed g || full (msz s fid) (S (length (g_args g)))) (g_phase g) (g_ctxc g)
                     (g_many g) (g_res g) (g_err g) (g_done g)))
-        (callers s ++ [mkCaller argv sh gi (length (g_args g)) false None])).
+        (callers s ++ [mkCaller fid argv sh gi (length (g_args g)) false None])).
 Proof.
-  intros s argv sh gi g HI EL EG. pose proof HI as [A B C D E].
-  destruct (C _ _ EL) as [g0 [G0 [S0 [P0 L0]]]]. assert (g0 = g) by congruence. subst g0.
-  pose proof (D _ _ EG) as [W1 W2].
+  intros s fid argv sh gi g HI EL EG. pose proof HI as [A B C D E].
+  destruct (C _ _ _ EL) as [g0 [G0 [[F0 S0] [P0 L0]]]]. assert (g0 = g) by congruence. subst g0.
+  pose proof (D _ _ EG) as [W1 W2]. rewrite F0 in W1.
   assert (Hnd : g_many g = None /\ g_res g = None /\ g_err g = None /\ g_done g = false)
     by (destruct P0 as [P0|P0]; rewrite P0 in W2; exact W2).
-  set (g' := mkGroup _ _ _ _ _ _ _ _ _).
-  set (f := full (maxsize s) (S (length (g_args g)))).
-  constructor; cbn [maxsize pending groups callers].
+  set (g' := mkGroup _ _ _ _ _ _ _ _ _ _).
+  set (f := full (msz s fid) (S (length (g_args g)))).
+  constructor; cbn [pending groups callers];
+    try (change (msz (mkState (maxsizes s) _ _ _)) with (msz s)).
   - (* A *) intros ci cl Hc. apply nth_error_app_last in Hc. destruct Hc as [[_ Hc]|[-> ->]].
     + destruct (A ci cl Hc) as [g0 [G0' [N0 S0']]].
       destruct (Nat.eq_dec (c_gid cl) gi) as [Q|Q].
@@ -141,20 +142,20 @@ Proof.
       * destruct (B _ _ _ _ EG Hn) as [cl [H1 H2]]. exists cl. split; auto. apply nth_error_app_old; auto.
       * eexists. split; [apply nth_error_app_new|]. cbn. auto.
     + destruct (B _ _ _ _ Hgj Hn) as [cl [H1 H2]]. exists cl. split; auto. apply nth_error_app_old; auto.
-  - (* C *) intros sh' gj Hl.
-    assert (Hl0 : lookup sh' (pending s) = Some gj /\ (f = true -> sh' <> sh)).
+  - (* C *) intros f' sh' gj Hl.
+    assert (Hl0 : lookup f' sh' (pending s) = Some gj /\ (f = true -> ~ (f' = fid /\ sh' = sh))).
     { destruct f eqn:F.
-      - rewrite lookup_remove_key in Hl. destruct (Nat.eqb_spec sh' sh); [discriminate|]. auto.
+      - rewrite lookup_remove_key in Hl. destruct (key_eqb_spec f' sh' fid sh); [discriminate|]. auto.
       - split; auto. discriminate. }
-    destruct Hl0 as [Hl0 Hf]. destruct (C _ _ Hl0) as [g0 [G0' [S0' [P0' L0']]]].
+    destruct Hl0 as [Hl0 Hf]. destruct (C _ _ _ Hl0) as [g0 [G0' [[F0' S0'] [P0' L0']]]].
     destruct (Nat.eq_dec gj gi) as [->|Q].
-    + assert (g0 = g) by congruence. subst g0. assert (sh' = sh) by congruence. subst sh'.
+    + assert (g0 = g) by congruence. subst g0. assert (sh' = sh) by congruence. assert (f' = fid) by congruence. subst sh' f'.
       destruct f eqn:F; [exfalso; apply Hf; auto|].
       exists g'. split; [eapply nth_error_upd_same; eauto|]. subst g'; cbn. split; auto. split; auto.
-      rewrite app_length; cbn. intro P. pose proof (full_false_lt _ _ F L0 P). lia.
+      rewrite app_length; cbn. rewrite F0. intro P. pose proof (full_false_lt _ _ F L0 P). lia.
     + exists g0. rewrite nth_error_upd_other by auto. auto.
   - (* D *) intros gj gx Hgj. apply nth_error_upd_inv in Hgj. destruct Hgj as [[-> [-> _]]|[N Hgj]]; eauto.
-    unfold gwf. subst g'; cbn. rewrite app_length; cbn. split.
+    unfold gwf. subst g'; cbn. rewrite app_length; cbn. rewrite F0. split.
     + intro P. specialize (L0 P). lia.
     + destruct P0 as [P0|P0]; rewrite P0; exact Hnd.
   - (* E *) intros ci cl r Hc Hr. apply nth_error_app_last in Hc. destruct Hc as [[_ Hc]|[-> ->]]; [|discriminate].
@@ -164,16 +165,17 @@ Proof.
     + exists g0. rewrite nth_error_upd_other by auto. auto.
 Qed.
 
-Lemma join_new : forall s argv sh c,
-  Inv s -> lookup sh (pending s) = None ->
-  Inv (mkState (maxsize s)
-        (if full (maxsize s) 1 then pending s else (sh, length (groups s)) :: pending s)
-        (groups s ++ [mkGroup sh [length (callers s)] (full (maxsize s) 1) Open c None None None false])
-        (callers s ++ [mkCaller argv sh (length (groups s)) 0 true None])).
+Lemma join_new : forall s fid argv sh c,
+  Inv s -> lookup fid sh (pending s) = None ->
+  Inv (mkState (maxsizes s)
+        (if full (msz s fid) 1 then pending s else (fid, sh, length (groups s)) :: pending s)
+        (groups s ++ [mkGroup fid sh [length (callers s)] (full (msz s fid) 1) Open c None None None false])
+        (callers s ++ [mkCaller fid argv sh (length (groups s)) 0 true None])).
 Proof.
-  intros s argv sh c HI EL. pose proof HI as [A B C D E].
-  set (g' := mkGroup _ _ _ _ _ _ _ _ _).
-  constructor; cbn [maxsize pending groups callers].
+  intros s fid argv sh c HI EL. pose proof HI as [A B C D E].
+  set (g' := mkGroup _ _ _ _ _ _ _ _ _ _).
+  constructor; cbn [pending groups callers];
+    try (change (msz (mkState (maxsizes s) _ _ _)) with (msz s)).
   - intros ci cl Hc. apply nth_error_app_last in Hc. destruct Hc as [[_ Hc]|[-> ->]].
     + destruct (A ci cl Hc) as [g0 [G0 [N0 S0]]]. exists g0. split; auto. apply nth_error_app_old; auto.
     + cbn. exists g'. split; [apply nth_error_app_new|]. subst g'; cbn. auto.
@@ -181,14 +183,14 @@ Proof.
     + destruct (B _ _ _ _ Hgj Hn) as [cl [H1 H2]]. exists cl. split; auto. apply nth_error_app_old; auto.
     + subst g'; cbn in Hn. destruct i as [|i]; [|destruct i; discriminate]. cbn in Hn. injection Hn as <-.
       eexists. split; [apply nth_error_app_new|]. cbn. auto.
-  - intros sh' gj Hl.
-    assert (Hl0 : (sh' = sh /\ gj = length (groups s) /\ full (maxsize s) 1 = false) \/ lookup sh' (pending s) = Some gj).
-    { destruct (full (maxsize s) 1) eqn:F; auto. cbn in Hl. destruct (Nat.eqb_spec sh' sh); auto.
+  - intros f' sh' gj Hl.
+    assert (Hl0 : (f' = fid /\ sh' = sh /\ gj = length (groups s) /\ full (msz s fid) 1 = false) \/ lookup f' sh' (pending s) = Some gj).
+    { destruct (full (msz s fid) 1) eqn:F; auto. cbn in Hl. destruct (key_eqb_spec f' sh' fid sh) as [[-> ->]|]; auto.
       injection Hl as <-. auto. }
-    destruct Hl0 as [[-> [-> F]]|Hl0].
+    destruct Hl0 as [[-> [-> [-> F]]]|Hl0].
     + exists g'. split; [apply nth_error_app_new|]. subst g'; cbn. split; auto. split; auto.
       unfold full in F. lia.
-    + destruct (C _ _ Hl0) as [g0 [G0 R]]. exists g0. split; auto. apply nth_error_app_old; auto.
+    + destruct (C _ _ _ Hl0) as [g0 [G0 R]]. exists g0. split; auto. apply nth_error_app_old; auto.
   - intros gj gx Hgj. apply nth_error_app_last in Hgj. destruct Hgj as [[_ Hgj]|[-> ->]]; eauto.
     unfold gwf. subst g'; cbn. split; auto; try lia.
   - intros ci cl r Hc Hr. apply nth_error_app_last in Hc. destruct Hc as [[_ Hc]|[-> ->]]; [|discriminate].
@@ -198,12 +200,13 @@ Qed.
 Lemma return_step : forall s ci cl g,
   Inv s -> nth_error (callers s) ci = Some cl -> c_ret cl = None ->
   nth_error (groups s) (c_gid cl) = Some g -> g_done g = true ->
-  Inv (mkState (maxsize s) (pending s) (groups s)
-        (upd (callers s) ci (mkCaller (c_arg cl) (c_shard cl) (c_gid cl) (c_index cl) (c_creator cl)
+  Inv (mkState (maxsizes s) (pending s) (groups s)
+        (upd (callers s) ci (mkCaller (c_fid cl) (c_arg cl) (c_shard cl) (c_gid cl) (c_index cl) (c_creator cl)
                                       (Some (ret_of g (c_index cl)))))).
 Proof.
   intros s ci cl g HI Hc Hn Hg Hd. pose proof HI as [A B C D E].
-  constructor; cbn [maxsize pending groups callers]; auto.
+  constructor; cbn [pending groups callers];
+    try (change (msz (mkState (maxsizes s) _ _ _)) with (msz s)); auto.
   - intros cj cx Hcj. apply nth_error_upd_inv in Hcj. destruct Hcj as [[-> [-> _]]|[N Hcj]]; cbn; eauto.
   - intros gj gx i cj Hgj Hi. destruct (B _ _ _ _ Hgj Hi) as [cx [H1 [H2 H3]]].
     destruct (Nat.eq_dec ci cj) as [->|N].
@@ -215,30 +218,30 @@ Qed.
 
 Ltac gwf_same W :=
   (* the new group differs from the old one only in fields gwf does not constrain in this phase *)
-  unfold gwf in *; cbn [g_shard g_args g_closed g_phase g_ctxc g_many g_res g_err g_done with_phase] in *;
+  unfold gwf in *; cbn [g_fid g_shard g_args g_closed g_phase g_ctxc g_many g_res g_err g_done with_phase] in *;
   destruct W as [W1 W2]; split; [exact W1|].
 
-Lemma not_pending_if_late : forall s gi g sh,
-  Inv s -> nth_error (groups s) gi = Some g -> lookup sh (pending s) = Some gi ->
+Lemma not_pending_if_late : forall s gi g f sh,
+  Inv s -> nth_error (groups s) gi = Some g -> lookup f sh (pending s) = Some gi ->
   g_phase g = Open \/ g_phase g = Woken.
 Proof.
-  intros s gi g sh HI EG EL. destruct (iC _ HI _ _ EL) as [g0 [G0 [_ [P0 _]]]]. congruence.
+  intros s gi g f sh HI EG EL. destruct (iC _ HI _ _ _ EL) as [g0 [G0 [_ [P0 _]]]]. congruence.
 Qed.
 
 Lemma inv_step : forall s l s', Inv s -> step s l = Some s' -> Inv s'.
 Proof.
   intros s l s' HI H. destruct l; unfold step in H.
   - (* LJoin *)
-    destruct (lookup shard (pending s)) as [gi|] eqn:EL.
+    destruct (lookup fid shard (pending s)) as [gi|] eqn:EL.
     + destruct (nth_error (groups s) gi) as [g|] eqn:EG; [|discriminate]. injection H as <-.
       apply join_existing; auto.
     + injection H as <-. apply join_new; auto.
   - (* LCtxCancel *)
     destruct (nth_error (groups s) g) as [gr|] eqn:EG; [|discriminate]. injection H as <-. unfold set_group.
     pose proof (iD _ HI _ _ EG) as W.
-    eapply inv_set_group; [exact HI|exact EG|reflexivity|reflexivity| | | |]; cbn.
+    eapply inv_set_group; [exact HI|exact EG|reflexivity|reflexivity|reflexivity| | | |]; cbn.
     + gwf_same W. destruct (g_phase gr); intuition.
-    + intros sh EL. eapply not_pending_if_late; eauto.
+    + intros f sh EL. eapply not_pending_if_late; eauto.
     + auto.
     + intros D0. split; auto.
   - (* LWake *)
@@ -247,7 +250,7 @@ Proof.
     match type of H with (if ?b then _ else _) = _ => destruct b; [|discriminate] end.
     injection H as <-. unfold set_group.
     pose proof (iD _ HI _ _ EG) as W.
-    eapply inv_set_group; [exact HI|exact EG|reflexivity|reflexivity| | | |]; cbn.
+    eapply inv_set_group; [exact HI|exact EG|reflexivity|reflexivity|reflexivity| | | |]; cbn.
     + gwf_same W. rewrite EP in W2. exact W2.
     + auto.
     + auto.
@@ -256,20 +259,20 @@ Proof.
     destruct (nth_error (groups s) g) as [gr|] eqn:EG; [|discriminate].
     destruct (g_phase gr) eqn:EP; try discriminate. injection H as <-.
     pose proof (iD _ HI _ _ EG) as W.
-    eapply inv_set_group; [exact HI|exact EG|reflexivity|reflexivity| | | |]; cbn.
+    eapply inv_set_group; [exact HI|exact EG|reflexivity|reflexivity|reflexivity| | | |]; cbn.
     + gwf_same W. rewrite EP in W2. exact W2.
     + (* after this section the group is not published *)
-      intros sh EL. exfalso.
-      destruct (lookup (g_shard gr) (pending s)) as [gj|] eqn:EL0.
+      intros f sh EL. exfalso.
+      destruct (lookup (g_fid gr) (g_shard gr) (pending s)) as [gj|] eqn:EL0.
       * destruct (Nat.eqb_spec gj g) as [->|N].
-        -- rewrite lookup_remove_key in EL. destruct (Nat.eqb_spec sh (g_shard gr)); [discriminate|].
-           destruct (iC _ HI _ _ EL) as [g0 [G0 [S0 _]]]. congruence.
-        -- destruct (iC _ HI _ _ EL) as [g0 [G0 [S0 _]]]. assert (g0 = gr) by congruence. subst g0. congruence.
-      * destruct (iC _ HI _ _ EL) as [g0 [G0 [S0 _]]]. assert (g0 = gr) by congruence. subst g0. congruence.
-    + intros sh gj EL.
-      destruct (lookup (g_shard gr) (pending s)) as [gk|] eqn:EL0; auto.
+        -- rewrite lookup_remove_key in EL. destruct (key_eqb_spec f sh (g_fid gr) (g_shard gr)) as [|NK]; [discriminate|].
+           destruct (iC _ HI _ _ _ EL) as [g0 [G0 [[F0 S0] _]]]. assert (g0 = gr) by congruence. subst g0. apply NK. split; congruence.
+        -- destruct (iC _ HI _ _ _ EL) as [g0 [G0 [[F0 S0] _]]]. assert (g0 = gr) by congruence. subst g0. congruence.
+      * destruct (iC _ HI _ _ _ EL) as [g0 [G0 [[F0 S0] _]]]. assert (g0 = gr) by congruence. subst g0. congruence.
+    + intros f sh gj EL.
+      destruct (lookup (g_fid gr) (g_shard gr) (pending s)) as [gk|] eqn:EL0; auto.
       destruct (Nat.eqb gk g); auto.
-      rewrite lookup_remove_key in EL. destruct (Nat.eqb sh (g_shard gr)); [discriminate|auto].
+      rewrite lookup_remove_key in EL. destruct (key_eqb f sh (g_fid gr) (g_shard gr)); [discriminate|auto].
     + intros D0. split; auto.
   - (* LRun *)
     destruct (nth_error (groups s) g) as [gr|] eqn:EG; [|discriminate].
@@ -277,15 +280,15 @@ Proof.
     destruct (g_ctxc gr) eqn:EC; [discriminate|].
     pose proof (iD _ HI _ _ EG) as W.
     assert (Hnd : g_done gr = false) by (destruct W as [_ W2]; rewrite EP in W2; tauto).
-    assert (Hpend : forall sh, lookup sh (pending s) = Some g -> False).
-    { intros sh EL. destruct (not_pending_if_late _ _ _ _ HI EG EL); congruence. }
+    assert (Hpend : forall f sh, lookup f sh (pending s) = Some g -> False).
+    { intros f sh EL. destruct (not_pending_if_late _ _ _ _ _ HI EG EL); congruence. }
     destruct o as [rs| |]; [destruct (Nat.eqb_spec (length rs) (length (g_args gr)))|..];
       injection H as <-; unfold set_group;
-      (eapply inv_set_group; [exact HI|exact EG|reflexivity|reflexivity| | | |]; cbn;
+      (eapply inv_set_group; [exact HI|exact EG|reflexivity|reflexivity|reflexivity| | | |]; cbn;
        [ gwf_same W; split; auto;
          first [ left; split; auto; eexists; split; eauto; fail
                | right; split; auto; eexists; split; eauto; discriminate ]
-       | intros sh EL; exfalso; eauto
+       | intros f sh EL; exfalso; eauto
        | auto
        | intros D0; congruence ]).
   - (* LCancel *)
@@ -294,9 +297,9 @@ Proof.
     destruct (g_ctxc gr) eqn:EC; [|discriminate]. injection H as <-. unfold set_group.
     pose proof (iD _ HI _ _ EG) as W.
     assert (Hnd : g_done gr = false) by (destruct W as [_ W2]; rewrite EP in W2; tauto).
-    eapply inv_set_group; [exact HI|exact EG|reflexivity|reflexivity| | | |]; cbn.
+    eapply inv_set_group; [exact HI|exact EG|reflexivity|reflexivity|reflexivity| | | |]; cbn.
     + gwf_same W. auto.
-    + intros sh EL. exfalso. destruct (not_pending_if_late _ _ _ _ HI EG EL); congruence.
+    + intros f sh EL. exfalso. destruct (not_pending_if_late _ _ _ _ _ HI EG EL); congruence.
     + auto.
     + intros D0. congruence.
   - (* LDone *)
@@ -304,9 +307,9 @@ Proof.
     pose proof (iD _ HI _ _ EG) as W.
     destruct (g_phase gr) eqn:EP; try discriminate;
       (destruct (g_done gr) eqn:ED; [discriminate|]); injection H as <-; unfold set_group;
-      (eapply inv_set_group; [exact HI|exact EG|reflexivity|reflexivity| | | |]; cbn;
+      (eapply inv_set_group; [exact HI|exact EG|reflexivity|reflexivity|reflexivity| | | |]; cbn;
        [ gwf_same W; rewrite EP in *; cbn; tauto
-       | intros sh EL; exfalso; destruct (not_pending_if_late _ _ _ _ HI EG EL); congruence
+       | intros f sh EL; exfalso; destruct (not_pending_if_late _ _ _ _ _ HI EG EL); congruence
        | auto
        | intros D0; congruence ]).
   - (* LReturn *)
@@ -326,15 +329,15 @@ Proof.
   - destruct (step s l) as [s1|] eqn:E; [|discriminate]. eapply IH; [|exact Hr]. eapply Hstep; eauto.
 Qed.
 
-Lemma inv_run : forall ms tr s, run (init ms) tr = Some s -> Inv s.
+Lemma inv_run : forall mss tr s, run (init mss) tr = Some s -> Inv s.
 Proof.
   intros ms tr s H. eapply (run_invariant Inv); eauto using inv_step, inv_init.
 Qed.
 
 (* ---- 1. what a caller gets ---- *)
 
-Lemma return_value_lemma : forall ms tr s ci cl r,
-  run (init ms) tr = Some s -> nth_error (callers s) ci = Some cl -> c_ret cl = Some r ->
+Lemma return_value_lemma : forall mss tr s ci cl r,
+  run (init mss) tr = Some s -> nth_error (callers s) ci = Some cl -> c_ret cl = Some r ->
   exists g, nth_error (groups s) (c_gid cl) = Some g /\ g_done g = true /\
             nth_error (g_args g) (c_index cl) = Some ci /\
             ((exists e, g_err g = Some e /\ r = RErr e) \/
@@ -342,7 +345,7 @@ Lemma return_value_lemma : forall ms tr s ci cl r,
               exists rs v, g_res g = Some rs /\ length rs = length (g_args g) /\
                            nth_error rs (c_index cl) = Some v /\ r = RVal v)).
 Proof.
-  intros ms tr s ci cl r H Hc Hr. pose proof (inv_run _ _ _ H) as HI.
+  intros mss tr s ci cl r H Hc Hr. pose proof (inv_run _ _ _ H) as HI.
   destruct (iE _ HI _ _ _ Hc Hr) as [g [G [Dn R]]].
   destruct (iA _ HI _ _ Hc) as [g0 [G0 [N0 _]]]. assert (g0 = g) by congruence. subst g0.
   exists g. split; auto. split; auto. split; auto.
@@ -359,8 +362,8 @@ Qed.
 
 (* ---- 2. every argument is in exactly one group, at its recorded index; Many sees it at most once ---- *)
 
-Lemma args_placement_lemma : forall ms tr s,
-  run (init ms) tr = Some s ->
+Lemma args_placement_lemma : forall mss tr s,
+  run (init mss) tr = Some s ->
   (forall ci cl, nth_error (callers s) ci = Some cl ->
      exists g, nth_error (groups s) (c_gid cl) = Some g /\ nth_error (g_args g) (c_index cl) = Some ci) /\
   (forall gi g i ci, nth_error (groups s) gi = Some g -> nth_error (g_args g) i = Some ci ->
@@ -368,7 +371,7 @@ Lemma args_placement_lemma : forall ms tr s,
   (forall gi g i gj g2 j ci, nth_error (groups s) gi = Some g -> nth_error (g_args g) i = Some ci ->
      nth_error (groups s) gj = Some g2 -> nth_error (g_args g2) j = Some ci -> gi = gj /\ i = j).
 Proof.
-  intros ms tr s H. pose proof (inv_run _ _ _ H) as HI. split; [|split].
+  intros mss tr s H. pose proof (inv_run _ _ _ H) as HI. split; [|split].
   - intros ci cl Hc. destruct (iA _ HI _ _ Hc) as [g [G [N _]]]. eauto.
   - intros. eapply (iB _ HI); eauto.
   - intros gi g i gj g2 j ci G1 N1 G2 N2.
@@ -397,7 +400,7 @@ Qed.
 Lemma ran_step : forall s l s' gi, step s l = Some s' -> ran s' gi = ran s gi + is_run gi l.
 Proof.
   intros s l s' gi H. destruct l; unfold step in H; cbn [is_run].
-  - destruct (lookup shard (pending s)) as [gj|] eqn:EL.
+  - destruct (lookup fid shard (pending s)) as [gj|] eqn:EL.
     + destruct (nth_error (groups s) gj) as [g|] eqn:EG; [|discriminate]. injection H as <-.
       rewrite (ran_set _ _ _ _ _ _ _ _ EG). unfold ran at 2; cbn [groups].
       destruct (Nat.eqb_spec gj gi) as [->|N]; [rewrite EG; unfold is_ran; cbn; lia|unfold ran; cbn; lia].
@@ -407,7 +410,7 @@ Proof.
       * apply nth_error_None in EG.
         destruct (Nat.eq_dec gi (length (groups s))) as [->|N].
         -- rewrite nth_error_app_new. cbn. lia.
-        -- assert (E : nth_error (groups s ++ [mkGroup shard [length (callers s)] (full (maxsize s) 1) Open cancelled None None None false]) gi = None)
+        -- assert (E : nth_error (groups s ++ [mkGroup fid shard [length (callers s)] (full (msz s fid) 1) Open cancelled None None None false]) gi = None)
              by (apply nth_error_None; rewrite app_length; cbn; lia).
            rewrite E. lia.
   - destruct (nth_error (groups s) g) as [gr|] eqn:EG; [|discriminate]. injection H as <-. unfold set_group.
@@ -425,7 +428,7 @@ Proof.
   - destruct (nth_error (groups s) g) as [gr|] eqn:EG; [|discriminate].
     destruct (g_phase gr) eqn:EP; try discriminate.
     destruct (g_ctxc gr); [discriminate|].
-    assert (R : forall res err, ran (set_group s g (mkGroup (g_shard gr) (g_args gr) (g_closed gr) Ran false (Some (g_args gr)) res err false)) gi
+    assert (R : forall res err, ran (set_group s g (mkGroup (g_fid gr) (g_shard gr) (g_args gr) (g_closed gr) Ran false (Some (g_args gr)) res err false)) gi
                                 = ran s gi + (if Nat.eqb g gi then 1 else 0)).
     { intros. unfold set_group. rewrite (ran_set _ _ _ _ _ _ _ _ EG). unfold ran; cbn [groups].
       destruct (Nat.eqb_spec g gi) as [->|N]; [rewrite EG; unfold is_ran; cbn; rewrite EP; lia|lia]. }
@@ -453,8 +456,8 @@ Proof.
   - destruct (step s l) as [s1|] eqn:E; [|discriminate]. rewrite (IH _ _ H), (ran_step _ _ _ gi E). simpl. lia.
 Qed.
 
-Lemma many_once_lemma : forall ms tr s gi,
-  run (init ms) tr = Some s ->
+Lemma many_once_lemma : forall mss tr s gi,
+  run (init mss) tr = Some s ->
   (* Many is called at most once per group over the whole schedule ... *)
   runs_of gi tr <= 1 /\
   (forall g, nth_error (groups s) gi = Some g ->
@@ -464,8 +467,8 @@ Lemma many_once_lemma : forall ms tr s gi,
      (* ... and a group that is done without a call of Many was cancelled *)
      (g_done g = true -> runs_of gi tr = 0 -> g_phase g = Cancelled /\ g_ctxc g = true /\ g_err g = Some ECtx)).
 Proof.
-  intros ms tr s gi H. pose proof (ran_run gi _ _ _ H) as R. pose proof (inv_run _ _ _ H) as HI.
-  assert (R0 : ran (init ms) gi = 0) by (unfold ran; destruct gi; reflexivity). rewrite R0 in R. simpl in R.
+  intros mss tr s gi H. pose proof (ran_run gi _ _ _ H) as R. pose proof (inv_run _ _ _ H) as HI.
+  assert (R0 : ran (init mss) gi = 0) by (unfold ran; destruct gi; reflexivity). rewrite R0 in R. simpl in R.
   split.
   - rewrite <- R. unfold ran. destruct (nth_error (groups s) gi) as [g|]; [unfold is_ran; destruct (g_phase g)|]; lia.
   - intros g G. unfold ran in R. rewrite G in R. destruct (iD _ HI _ _ G) as [_ W].
@@ -478,27 +481,47 @@ Qed.
 
 (* ---- 3. sizes, 4. shards ---- *)
 
-Lemma size_lemma : forall ms tr s gi g,
-  run (init ms) tr = Some s -> nth_error (groups s) gi = Some g -> 0 < ms -> length (g_args g) <= ms.
+Lemma maxsizes_run : forall mss tr s, run (init mss) tr = Some s -> maxsizes s = mss.
 Proof.
-  intros ms tr s gi g H G P. pose proof (inv_run _ _ _ H) as HI. destruct (iD _ HI _ _ G) as [W _].
-  assert (M : maxsize s = ms).
-  { clear - H. apply (run_invariant (fun s => maxsize s = ms)) with (tr := tr) (s := init ms); auto.
-    intros s0 l s1 E St. rewrite <- E. clear - St. destruct l; unfold step in St;
-      repeat match type of St with
-      | context[match ?x with _ => _ end] => destruct x; try discriminate St
-      end; injection St as <-; reflexivity. }
-  rewrite M in W. auto.
+  intros mss tr s H. apply (run_invariant (fun s => maxsizes s = mss)) with (tr := tr) (s := init mss); auto.
+  intros s0 l s1 E St. rewrite <- E. clear - St. destruct l; unfold step in St;
+    repeat match type of St with
+    | context[match ?x with _ => _ end] => destruct x; try discriminate St
+    end; injection St as <-; reflexivity.
 Qed.
 
-Lemma shard_lemma : forall ms tr s gi g i ci,
-  run (init ms) tr = Some s -> nth_error (groups s) gi = Some g -> nth_error (g_args g) i = Some ci ->
-  exists cl, nth_error (callers s) ci = Some cl /\ c_shard cl = g_shard g.
+Lemma size_lemma : forall mss tr s gi g,
+  run (init mss) tr = Some s -> nth_error (groups s) gi = Some g ->
+  0 < nth (g_fid g) mss 0 -> length (g_args g) <= nth (g_fid g) mss 0.
 Proof.
-  intros ms tr s gi g i ci H G N. pose proof (inv_run _ _ _ H) as HI.
-  destruct (iB _ HI _ _ _ _ G N) as [cl [C [A B]]]. exists cl. split; auto.
-  destruct (iA _ HI _ _ C) as [g0 [G0 [_ S0]]]. rewrite A in G0. congruence.
+  intros mss tr s gi g H G P. pose proof (inv_run _ _ _ H) as HI. destruct (iD _ HI _ _ G) as [W _].
+  unfold msz in W. rewrite (maxsizes_run _ _ _ H) in W. auto.
 Qed.
+
+(* a batch never mixes shards nor Funcs: every caller in a group called the group's Func with the group's shard *)
+Lemma shard_lemma : forall mss tr s gi g i ci,
+  run (init mss) tr = Some s -> nth_error (groups s) gi = Some g -> nth_error (g_args g) i = Some ci ->
+  exists cl, nth_error (callers s) ci = Some cl /\ c_shard cl = g_shard g /\ c_fid cl = g_fid g.
+Proof.
+  intros mss tr s gi g i ci H G N. pose proof (inv_run _ _ _ H) as HI.
+  destruct (iB _ HI _ _ _ _ G N) as [cl [C [A B]]]. exists cl. split; auto.
+  destruct (iA _ HI _ _ C) as [g0 [G0 [_ [S0 F0]]]]. rewrite A in G0. split; congruence.
+Qed.
+
+(* two published groups of the same (Func, shard) never coexist, and groups of different Funcs have different keys:
+   the pending map sends (f, sh) to a group of exactly that Func and shard *)
+Lemma pending_key_lemma : forall mss tr s f sh gi,
+  run (init mss) tr = Some s -> lookup f sh (pending s) = Some gi ->
+  exists g, nth_error (groups s) gi = Some g /\ g_fid g = f /\ g_shard g = sh.
+Proof.
+  intros mss tr s f sh gi H L. pose proof (inv_run _ _ _ H) as HI.
+  destruct (iC _ HI _ _ _ L) as [g [G [[F S] _]]]. eauto.
+Qed.
+
+(* Invoke ignores the context of a caller that joins an existing group *)
+Lemma waiter_context_ignored_lemma : forall s f a sh c1 c2 gi,
+  lookup f sh (pending s) = Some gi -> step s (LJoin f a sh c1) = step s (LJoin f a sh c2).
+Proof. intros s f a sh c1 c2 gi L. unfold step. rewrite L. reflexivity. Qed.
 
 (* ---- 5. done is reached on every path: the creator always has an enabled step, at most four are left ---- *)
 
@@ -532,12 +555,12 @@ Proof.
     split; [cbn; eapply nth_error_upd_same; eauto|]. unfold rank; cbn. lia.
 Qed.
 
-Lemma done_reachable_lemma : forall ms tr s gi g,
-  run (init ms) tr = Some s -> nth_error (groups s) gi = Some g ->
+Lemma done_reachable_lemma : forall mss tr s gi g,
+  run (init mss) tr = Some s -> nth_error (groups s) gi = Some g ->
   exists tr' s' g', length tr' = rank g /\ length tr' <= 4 /\ (forall l, In l tr' -> label_group l = Some gi) /\
                     run s tr' = Some s' /\ nth_error (groups s') gi = Some g' /\ g_done g' = true.
 Proof.
-  intros ms tr s gi g _ G.
+  intros mss tr s gi g _ G.
   assert (B : rank g <= 4) by (unfold rank; destruct (g_done g), (g_phase g); lia).
   remember (rank g) as k eqn:K. revert s g G K B. induction k as [|k IH]; intros s g G K B.
   - exists [], s, g. repeat split; auto; try lia. { intros l []. }
@@ -550,14 +573,14 @@ Proof.
 Qed.
 
 (* once the group is done every caller of it that has not returned can return, with the group's value / error *)
-Lemma return_enabled_lemma : forall ms tr s ci cl,
-  run (init ms) tr = Some s -> nth_error (callers s) ci = Some cl -> c_ret cl = None ->
+Lemma return_enabled_lemma : forall mss tr s ci cl,
+  run (init mss) tr = Some s -> nth_error (callers s) ci = Some cl -> c_ret cl = None ->
   exists g, nth_error (groups s) (c_gid cl) = Some g /\
     (g_done g = true ->
      exists s' cl', step s (LReturn ci) = Some s' /\ nth_error (callers s') ci = Some cl' /\
                     c_ret cl' = Some (ret_of g (c_index cl))).
 Proof.
-  intros ms tr s ci cl H C R. pose proof (inv_run _ _ _ H) as HI.
+  intros mss tr s ci cl H C R. pose proof (inv_run _ _ _ H) as HI.
   destruct (iA _ HI _ _ C) as [g [G _]]. exists g. split; auto. intro Dn.
   unfold step. rewrite C, R, G, Dn. eexists. eexists. split; [reflexivity|].
   cbn. split; [eapply nth_error_upd_same; eauto|]. reflexivity.
